@@ -55,3 +55,37 @@ package builder
 //@   ensures {C16,C01} err == nil && a == sliceChoice(b, lhs, rhs)
 //@   ensures {C16,C01} is(a, gmodel.SliceAssignment) ==> identicalT(elemT(bmodel.exprType(rhs)), elemT(bmodel.exprType(lhs)))
 //@   ensures {C16} is(a, gmodel.SliceTypecastAssignment) ==> b.opts.Typecast && convertible(elemT(bmodel.exprType(rhs)), elemT(bmodel.exprType(lhs)))
+
+// ---- explicit source paths (C06, C01, C07, C02) -------------------------------------------------------------------------
+
+//@ spec stepVisible(b *assignmentBuilder, t types.Type, name string) bool = !(externalPkg(b, pkgOfType(t)) && !isExported(name))
+//@ spec visibleChain(b *assignmentBuilder, n bmodel.Node, root bmodel.Node) bool =
+//@     n == root ||
+//@     cond(is(n, bmodel.StructFieldNode),
+//@          stepVisible(b, bmodel.exprType(as(n, bmodel.StructFieldNode).parent), nameOf(as(n, bmodel.StructFieldNode).field)) &&
+//@          !bmodel.returnsError(as(n, bmodel.StructFieldNode).parent) && visibleChain(b, as(n, bmodel.StructFieldNode).parent, root),
+//@     cond(is(n, bmodel.StructMethodNode),
+//@          stepVisible(b, bmodel.exprType(as(n, bmodel.StructMethodNode).container), nameOf(as(n, bmodel.StructMethodNode).method)) &&
+//@          !bmodel.returnsError(as(n, bmodel.StructMethodNode).container) && visibleChain(b, as(n, bmodel.StructMethodNode).container, root),
+//@          false))
+//@
+//@ func (*assignmentBuilder).resolveExpr(b, matcher, root) (node, ok)
+//@   requires b.pkg != nil && option.idInv(matcher) && bmodel.wfNode(root) && !bmodel.returnsError(root)
+//@   ensures {C06,C01,C02} ok ==> bmodel.wfNode(node) && visibleChain(b, node, root)
+//@   ensures {C06} !ok ==> true
+//@   loop 1 invariant 0 <= i && i <= len(matcher.paths) && bmodel.wfNode(node) && visibleChain(b, node, root)
+//@   loop 1 invariant typ == bmodel.exprType(node) && typ != nil && (i > 0 ==> !bmodel.returnsError(node))
+//@   loop 1 invariant i == 0 ==> node == root
+//@
+//@ spec argIndex(m *option.IdentMatcher) int = parseInt(substr(m.paths[0], 1, len(m.paths[0])), 10, 64) - 1
+//@
+//@ func (*assignmentBuilder).resolveTemplatedExpr(b, matcher, additionalArgs) (node, ok)
+//@   requires b.pkg != nil && option.idInv(matcher) && len(matcher.paths[0]) >= 1
+//@   requires forall(i, 0, len(additionalArgs), bmodel.wfNode(additionalArgs[i]) && !bmodel.returnsError(additionalArgs[i]))
+//@   ensures {C06,C01,C02} ok ==> 0 <= argIndex(matcher) && argIndex(matcher) < len(additionalArgs)
+//@   ensures {C06,C01,C02} ok ==> bmodel.wfNode(node) && visibleChain(b, node, additionalArgs[argIndex(matcher)])
+//@   ensures {C06,C02} ok && len(matcher.paths) == 1 ==> node == additionalArgs[argIndex(matcher)]
+//@   loop 1 invariant 1 <= i && i <= len(matcher.paths) && bmodel.wfNode(node) && visibleChain(b, node, additionalArgs[argIndex(matcher)])
+//@   loop 1 invariant 0 <= argIndex(matcher) && argIndex(matcher) < len(additionalArgs)
+//@   loop 1 invariant typ == bmodel.exprType(node) && typ != nil && (i > 1 ==> !bmodel.returnsError(node))
+//@   loop 1 invariant i == 1 ==> node == additionalArgs[argIndex(matcher)]
